@@ -145,6 +145,9 @@ pub fn liveness_problems(o: &Outcome) -> Vec<(String, String)> {
         Verdict::MainPanic(m) => v.push(("panic-main".to_string(), format!("the thread calling Txtpp::run panicked: {m}"))),
         _ => {}
     }
+    if o.late_tasks > 0 {
+        v.push(("panic-worker".to_string(), format!("Txtpp::run returned while {} worker task(s) were still running (the runtime's Drop must join the pool); panics seen afterwards: {:?}", o.late_tasks, o.panics)));
+    }
     if o.trace.panicked_tasks > 0 || (!o.panics.is_empty() && !matches!(o.verdict, Verdict::MainPanic(_))) {
         v.push(("panic-worker".to_string(), format!("panic in a txtpp thread: {:?}", o.panics)));
     }
